@@ -256,10 +256,15 @@ namespace
                     std::promise<int> promise;
                     Outstanding o{producer, value, promise.get_future(), {}};
                     PushSourceSender sender = run.sender;
-                    o.thread = std::thread([sender, value, blocking, p = std::move(promise)]() mutable {
+                    auto running = std::make_shared<std::atomic<bool>>(false);
+                    o.thread = std::thread([sender, value, blocking, running, p = std::move(promise)]() mutable {
+                        running->store(true, std::memory_order_release);
                         try { p.set_value((blocking ? sender.send_blocking(Int{value}) : sender.try_send(Int{value})) ? 1 : 0); }
                         catch (...) { p.set_value(-1); }
                     });
+                    // the 30 ms that tell "parked" from "returned" start once the thread is really running
+                    // (on a loaded machine the new thread may not be scheduled for longer than that)
+                    while (!running->load(std::memory_order_acquire)) { std::this_thread::yield(); }
                     const auto wait = expect_block ? std::chrono::milliseconds{30} : std::chrono::milliseconds{10000};
                     if (o.result.wait_for(wait) == std::future_status::ready)
                     {
